@@ -486,12 +486,16 @@ func (c *Ctx) callReadsID(info *types.Info, e ast.Expr) bool {
 				return !found
 			}
 			f := calleeOf(info, call)
-			if f == nil || f.Pkg() == nil || f.Pkg().Path() != pkgIR {
+			if f == nil || f.Pkg() == nil || !c.isLLVM(f.Pkg().Path()) {
 				return true
 			}
+			// x.ID() of a value of package ir or of a metadata definition (ir/metadata)
 			if f.Name() == "ID" && len(call.Args) == 0 {
 				found = true
 				return false
+			}
+			if f.Pkg().Path() != pkgIR {
+				return true
 			}
 			if fd := c.funcDecl(f); fd != nil && fd.Body != nil && depth < 2 {
 				look(fd.Body, depth+1)
